@@ -1,6 +1,7 @@
 /-
-Proofs/LoopInv — the invariant of the repaired fsloop protocol (queues + n consumers + closer),
-for every number of consumers, every channel capacity and every schedule.  Helper lemmas for
+Proofs/LoopInv — the invariant of the repaired fsloop protocol (producers + queues + n consumers +
+closer + lifecycle + environment acts), for every number of consumers, every channel capacity and
+every schedule, including kills / error events / the deadline at any moment.  Helper lemmas for
 `Goat/Props/C08.lean`.
 -/
 import Goat.Model.Loop
@@ -9,41 +10,61 @@ import Goat.Proofs.LoopWalk
 namespace Goat.Loop
 open Goat.LTS
 
-/-! ### additive measures over the consumers' program counters -/
+/-! ### additive measures over lists (consumers' program counters, producers) -/
 
-def msum (f : PC → Nat) : List PC → Nat
+def lsum {α : Type} (f : α → Nat) : List α → Nat
   | [] => 0
-  | pc :: r => f pc + msum f r
+  | a :: r => f a + lsum f r
 
-theorem msum_set (f : PC → Nat) : ∀ (l : List PC) (i : Nat) (pc pc' : PC), l[i]? = some pc →
-    msum f (l.set i pc') + f pc = msum f l + f pc'
+theorem lsum_set {α : Type} (f : α → Nat) : ∀ (l : List α) (i : Nat) (a a' : α), l[i]? = some a →
+    lsum f (l.set i a') + f a = lsum f l + f a'
   | [], _, _, _, h => by simp at h
-  | a :: r, 0, pc, pc', h => by
-    simp at h; subst h; simp [msum]; omega
-  | a :: r, i + 1, pc, pc', h => by
+  | b :: r, 0, a, a', h => by
+    simp at h; subst h; simp [lsum]; omega
+  | b :: r, i + 1, a, a', h => by
     simp at h
-    have := msum_set f r i pc pc' h
-    simp [msum]; omega
+    have := lsum_set f r i a a' h
+    simp [lsum]; omega
 
-theorem msum_replicate (f : PC → Nat) (n : Nat) (pc : PC) : msum f (List.replicate n pc) = n * f pc := by
+theorem lsum_append {α : Type} (f : α → Nat) (a b : List α) : lsum f (a ++ b) = lsum f a + lsum f b := by
+  induction a with
+  | nil => simp [lsum]
+  | cons x r ih => simp [lsum, ih]; omega
+
+theorem lsum_replicate {α : Type} (f : α → Nat) (n : Nat) (a : α) : lsum f (List.replicate n a) = n * f a := by
   induction n with
-  | zero => simp [msum]
-  | succ k ih => simp [List.replicate_succ, msum, ih, Nat.succ_mul]; omega
+  | zero => simp [lsum]
+  | succ k ih => simp [List.replicate_succ, lsum, ih, Nat.succ_mul]; omega
 
-theorem msum_eq_zero (f : PC → Nat) (l : List PC) (h : msum f l = 0) : ∀ pc ∈ l, f pc = 0 := by
+theorem lsum_eq_zero {α : Type} (f : α → Nat) (l : List α) (h : lsum f l = 0) : ∀ a ∈ l, f a = 0 := by
   induction l with
   | nil => simp
   | cons a r ih =>
-    simp [msum] at h
-    intro pc hpc
-    cases hpc with
+    simp [lsum] at h
+    intro b hb
+    cases hb with
     | head => exact h.1
-    | tail _ hm => exact ih h.2 pc hm
+    | tail _ hm => exact ih h.2 b hm
 
-theorem msum_le_length (f : PC → Nat) (hf : ∀ pc, f pc ≤ 1) (l : List PC) : msum f l ≤ l.length := by
+theorem lsum_le_length {α : Type} (f : α → Nat) (hf : ∀ a, f a ≤ 1) (l : List α) : lsum f l ≤ l.length := by
   induction l with
-  | nil => simp [msum]
-  | cons a r ih => have := hf a; simp [msum]; omega
+  | nil => simp [lsum]
+  | cons a r ih => have := hf a; simp [lsum]; omega
+
+theorem lsum_ge {α : Type} (f : α → Nat) (l : List α) (i : Nat) (a : α) (h : l[i]? = some a) : f a ≤ lsum f l := by
+  induction l generalizing i with
+  | nil => simp at h
+  | cons b r ih =>
+    cases i with
+    | zero => simp at h; subst h; simp [lsum]
+    | succ j => simp at h; have := ih j h; simp [lsum]; omega
+
+theorem lsum_all_zero {α : Type} (f : α → Nat) (l : List α) (h : ∀ a ∈ l, f a = 0) : lsum f l = 0 := by
+  induction l with
+  | nil => rfl
+  | cons a r ih =>
+    simp [lsum, h a (by simp)]
+    exact ih (fun b hb => h b (by simp [hb]))
 
 /-- weight of a consumer that is inside the callback on `x` -/
 def cbW (x : Item) (pc : PC) : Nat := if pc = .inCb x.1 x.2 then 1 else 0
@@ -54,11 +75,47 @@ def liveW (pc : PC) : Nat := if pc = .exited then 0 else 1
 /-- weight of a consumer inside any callback -/
 def anyCbW (pc : PC) : Nat := match pc with | .inCb _ _ => 1 | _ => 0
 
-theorem count_inflight (x : Item) (l : List PC) : (inflight l).count x = msum (cbW x) l := by
+/-- a producer goroutine that has not executed `pool.Done()` -/
+def liveP : Prod → Nat
+  | .gone => 0
+  | _ => 1
+/-- how often the rest of a producer's program (and of the producers it will start) sends `x` -/
+def unsentC (x : Item) : Prod → Nat
+  | .run acts => (sendsL acts).count x
+  | .rep _ _ rest => (sendsL rest).count x
+  | .gone => 0
+/-- weight of a producer that is about to report the failed listing of `p` -/
+def lrepW (p : Path) : Prod → Nat
+  | .rep q _ _ => if q = p then 1 else 0
+  | _ => 0
+/-- how many failing listings of `p` the rest of a producer's program contains -/
+def lpendC (p : Path) : Prod → Nat
+  | .run acts => (listsL acts).count (p, false)
+  | .rep _ _ rest => (listsL rest).count (p, false)
+  | .gone => 0
+
+/-- directory items the rest of a producer's program (and of the producers it will start) sends -/
+def unsentD : Prod → Nat
+  | .run acts => (sendsL acts).countP (fun x => x.1)
+  | .rep _ _ rest => (sendsL rest).countP (fun x => x.1)
+  | .gone => 0
+/-- file items the rest of a producer's program (and of the producers it will start) sends -/
+def unsentF : Prod → Nat
+  | .run acts => (sendsL acts).countP (fun x => !x.1)
+  | .rep _ _ rest => (sendsL rest).countP (fun x => !x.1)
+  | .gone => 0
+
+theorem countP_sendsL_drop_le (f : Item → Bool) (k : Nat) (l : List PAct) :
+    (sendsL (l.drop k)).countP f ≤ (sendsL l).countP f := by
+  have := congrArg (fun l => l.countP f) (sendsL_take_drop k l)
+  simp [List.countP_append] at this
+  omega
+
+theorem count_inflight (x : Item) (l : List PC) : (inflight l).count x = lsum (cbW x) l := by
   induction l with
-  | nil => simp [inflight, msum]
+  | nil => simp [inflight, lsum]
   | cons a r ih =>
-    cases a <;> simp [inflight, msum, cbW, ih, List.count_cons]
+    cases a <;> simp [inflight, lsum, cbW, ih, List.count_cons]
     rename_i d p
     obtain ⟨x1, x2⟩ := x
     by_cases h : d = x1 ∧ p = x2
@@ -66,25 +123,43 @@ theorem count_inflight (x : Item) (l : List PC) : (inflight l).count x = msum (c
     · have h' : ¬ ((d, p) = (x1, x2)) := by simpa using h
       simp [h]
 
-theorem count_reporting (x : Item) (l : List PC) : (reporting l).count (.cb x.1 x.2) = msum (repW x) l := by
+theorem count_reporting (x : Item) (l : List PC) : (reporting l).count (.cb x.1 x.2) = lsum (repW x) l := by
   induction l with
-  | nil => simp [reporting, msum]
+  | nil => simp [reporting, lsum]
   | cons a r ih =>
-    cases a <;> simp [reporting, msum, repW, ih, List.count_cons]
+    cases a <;> simp [reporting, lsum, repW, ih, List.count_cons]
     rename_i d p
     by_cases h : d = x.1 ∧ p = x.2
     · obtain ⟨rfl, rfl⟩ := h; simp; omega
     · simp [h]
 
-theorem count_reporting_listing (p : Path) (l : List PC) : (reporting l).count (.listing p) = 0 := by
+theorem count_reportingP (p : Path) (l : List Prod) : (reportingP l).count p = lsum (lrepW p) l := by
   induction l with
-  | nil => simp [reporting]
-  | cons a r ih => cases a <;> simp [reporting, ih]
+  | nil => simp [reportingP, lsum]
+  | cons a r ih =>
+    cases a <;> simp [reportingP, lsum, lrepW, ih, List.count_cons]
+    rename_i q _ _
+    by_cases h : q = p
+    · subst h; simp; omega
+    · simp [h]
 
-theorem length_inflight (l : List PC) : (inflight l).length = msum anyCbW l := by
+theorem liveProds_eq (l : List Prod) : liveProds l = lsum liveP l := by
   induction l with
-  | nil => simp [inflight, msum]
-  | cons a r ih => cases a <;> simp [inflight, msum, anyCbW, ih]; omega
+  | nil => simp [liveProds, lsum]
+  | cons a r ih => cases a <;> simp [liveProds, lsum, liveP, ih] <;> omega
+
+theorem length_inflight (l : List PC) : (inflight l).length = lsum anyCbW l := by
+  induction l with
+  | nil => simp [inflight, lsum]
+  | cons a r ih => cases a <;> simp [inflight, lsum, anyCbW, ih]; omega
+
+/-! ### the lifecycle's context -/
+
+@[simp] theorem Ctx.dead_kill (c : Ctx) : c.kill.dead = true := by cases c <;> rfl
+@[simp] theorem Ctx.dead_expire (c : Ctx) : c.expire.dead = true := by cases c <;> rfl
+theorem Ctx.kill_of_dead {c : Ctx} (h : c.dead = true) : c.kill = c := by cases c <;> simp_all [Ctx.dead, Ctx.kill]
+theorem Ctx.expire_of_dead {c : Ctx} (h : c.dead = true) : c.expire = c := by cases c <;> simp_all [Ctx.dead, Ctx.expire]
+theorem Ctx.err_ne_nil {c : Ctx} : c.err ≠ [] ↔ c.dead = true := by cases c <;> simp [Ctx.err, Ctx.dead]
 
 /-! ### the invariant -/
 
@@ -101,41 +176,54 @@ def Good (s : St) : PC → Prop
   | _ => True
 
 /-- the closer's program counter determines the announcement and the channel states; it leaves
-`waiting` only when all producers are done -/
+`waiting` only when every producer has signed off -/
 def CloserOK (s : St) : Prop :=
   match s.closer with
   | .waiting => s.closed = false ∧ s.dClosed = false ∧ s.fClosed = false
-  | .waited => s.pending = [] ∧ s.closed = false ∧ s.dClosed = false ∧ s.fClosed = false
-  | .announced => s.pending = [] ∧ s.closed = true ∧ s.dClosed = false ∧ s.fClosed = false
-  | .closedD => s.pending = [] ∧ s.closed = true ∧ s.dClosed = true ∧ s.fClosed = false
-  | .fin => s.pending = [] ∧ s.closed = true ∧ s.dClosed = true ∧ s.fClosed = true
+  | .waited => s.ppool = 0 ∧ s.closed = false ∧ s.dClosed = false ∧ s.fClosed = false
+  | .announced => s.ppool = 0 ∧ s.closed = true ∧ s.dClosed = false ∧ s.fClosed = false
+  | .closedD => s.ppool = 0 ∧ s.closed = true ∧ s.dClosed = true ∧ s.fClosed = false
+  | .fin => s.ppool = 0 ∧ s.closed = true ∧ s.dClosed = true ∧ s.fClosed = true
 
-structure Inv (P : Params) (acts : List PAct) (n : Nat) (s : St) : Prop where
+structure Inv (P : Params) (prog : List PAct) (n : Nat) (s : St) : Prop where
   closer : CloserOK s
   good : ∀ pc ∈ s.cons, Good s pc
   len : s.cons.length = n
   /-- the wait-group counter is the number of consumer goroutines that have not called `Done` -/
-  pool : s.poolCtr = msum liveW s.cons
+  pool : s.poolCtr = lsum liveW s.cons
+  /-- the producer pool's counter is the number of producer goroutines that have not called `Done` -/
+  ppool : s.ppool = lsum liveP s.prods
   /-- conservation of items: not yet sent + queued + in a callback + done + never sent = all -/
-  items : ∀ x, (sends s.pending).count x + (qItems s).count x + msum (cbW x) s.cons + s.done.count x
-      + (sends s.dropped).count x = (sends acts).count x
-  /-- failing listings: reported + not yet executed + never executed = all -/
-  lfail : ∀ p, s.errors.count (.listing p) + (lists s.pending).count (p, false)
-      + (lists s.dropped).count (p, false) = (lists acts).count (p, false)
+  items : ∀ x, lsum (unsentC x) s.prods + (qItems s).count x + lsum (cbW x) s.cons + s.done.count x
+      + (sendsL s.dropped).count x = (sendsL prog).count x
+  /-- failed listings: reported + about to be reported = failed -/
+  lrep : ∀ p, s.errors.count (.listing p) + lsum (lrepW p) s.prods = s.lfailed.count p
+  /-- failing listings: executed + not yet executed + never executed = all -/
+  lfail : ∀ p, s.lfailed.count p + lsum (lpendC p) s.prods + (listsL s.dropped).count (p, false)
+      = (listsL prog).count (p, false)
   /-- failing callbacks: reported + about to be reported = finished callbacks that fail -/
-  cbfail : ∀ x : Item, s.errors.count (.cb x.1 x.2) + msum (repW x) s.cons
+  cbfail : ∀ x : Item, s.errors.count (.cb x.1 x.2) + lsum (repW x) s.cons
       = if P.failCb x.1 x.2 then s.done.count x else 0
   dropped : s.killed = false → s.dropped = []
-  killed : s.killed = true ↔ s.errors ≠ []
+  /-- strict lifecycle: an entry in the error list means the context is cancelled -/
+  strict : s.errors ≠ [] → s.killed = true
   capD : s.qd.length ≤ P.capD
   capF : s.qf.length ≤ P.capF
+  /-- what is queued and what is still to be sent never exceeds what the program sends in total -/
+  lenD : s.qd.length + lsum unsentD s.prods ≤ (sendsL prog).countP (fun x => x.1)
+  lenF : s.qf.length + lsum unsentF s.prods ≤ (sendsL prog).countP (fun x => !x.1)
 
-theorem closed_pending {s : St} (h : CloserOK s) (hc : s.closed = true) : s.pending = [] := by
+theorem closed_ppool {s : St} (h : CloserOK s) (hc : s.closed = true) : s.ppool = 0 := by
   unfold CloserOK at h
   cases hcl : s.closer <;> simp [hcl] at h <;> simp_all
 
 theorem chClosed_closed {s : St} (h : CloserOK s) (hc : s.dClosed = true ∨ s.fClosed = true) :
     s.closed = true := by
+  unfold CloserOK at h
+  cases hcl : s.closer <;> simp [hcl] at h <;> simp_all
+
+theorem waiting_of_ppool {s : St} (h : CloserOK s) (hp : s.ppool ≠ 0) :
+    s.closer = .waiting ∧ s.closed = false ∧ s.dClosed = false ∧ s.fClosed = false := by
   unfold CloserOK at h
   cases hcl : s.closer <;> simp [hcl] at h <;> simp_all
 
@@ -153,40 +241,45 @@ theorem Good_mono {s t : St} {pc : PC}
 
 /-! ### the initial state -/
 
-theorem inv_init (P : Params) (acts : List PAct) (n : Nat) : Inv P acts n (init acts n) := by
-  refine ⟨?_, ?_, ?_, ?_, ?_, ?_, ?_, ?_, ?_, ?_, ?_⟩
+theorem inv_init (P : Params) (prog : List PAct) (n : Nat) : Inv P prog n (init prog n) := by
+  refine ⟨?_, ?_, ?_, ?_, ?_, ?_, ?_, ?_, ?_, ?_, ?_, ?_, ?_, ?_, ?_⟩
   · simp [CloserOK, init]
   · intro pc hpc
     simp [init] at hpc
     rw [hpc.2]; simp [Good]
   · simp [init]
-  · simp [init, msum_replicate, liveW]
-  · intro x; simp [init, qItems, msum_replicate, cbW, sends]
-  · intro p; simp [init, lists]
-  · intro x; simp [init, msum_replicate, repW]
+  · simp [init, lsum_replicate, liveW]
+  · simp [init, lsum, liveP]
+  · intro x; simp [init, qItems, lsum_replicate, cbW, lsum, unsentC]
+  · intro p; simp [init, lsum, lrepW]
+  · intro p; simp [init, lsum, lpendC]
+  · intro x; simp [init, lsum_replicate, repW]
   · intro _; rfl
   · simp [init]
   · simp [init]
   · simp [init]
+  · simp [init, lsum, unsentD]
+  · simp [init, lsum, unsentF]
 
 /-! ### consumer actions -/
 
 /-- what a consumer action leaves alone -/
 theorem consAct_frame (P : Params) (s : St) (pc : PC) :
     let r := consAct P s pc
-    r.2.pending = s.pending ∧ r.2.closer = s.closer ∧ r.2.closed = s.closed
+    r.2.prods = s.prods ∧ r.2.ppool = s.ppool ∧ r.2.closer = s.closer ∧ r.2.closed = s.closed
     ∧ r.2.dClosed = s.dClosed ∧ r.2.fClosed = s.fClosed ∧ r.2.dropped = s.dropped
+    ∧ r.2.lfailed = s.lfailed
     ∧ r.2.cons = s.cons
     ∧ (s.killed = true → r.2.killed = true)
     ∧ r.2.qd.length ≤ s.qd.length ∧ r.2.qf.length ≤ s.qf.length := by
-  cases pc <;> simp only [consAct] <;> (repeat' split) <;> simp_all
+  cases pc <;> simp only [consAct] <;> (repeat' split) <;> simp_all [St.killed]
 
 /-- a consumer action keeps what the invariant says about the other consumers -/
 theorem consAct_others (P : Params) (s : St) (pc q : PC) (h : Good s q) : Good (consAct P s pc).2 q := by
   have key : ∀ t : St, (s.killed = true → t.killed = true) → t.closed = s.closed →
       (s.qd = [] → t.qd = []) → (s.qf = [] → t.qf = []) → Good t q :=
     fun t hk hc hd hf => Good_mono hk (by intro h; rw [hc]; exact h) (fun _ => hd) (fun _ => hf) h
-  cases pc <;> simp only [consAct] <;> (repeat' split) <;> apply key <;> simp_all
+  cases pc <;> simp only [consAct] <;> (repeat' split) <;> apply key <;> simp_all [St.killed]
 
 /-- after its action the consumer itself satisfies the invariant (repaired order) -/
 theorem consAct_self (P : Params) (hP : P.fixedOrder = true) (s : St) (pc : PC) (hg : Good s pc) :
@@ -256,7 +349,7 @@ theorem consAct_errs (P : Params) (s : St) (pc : PC) (x : Item) :
     (r.2.errors.count (.cb x.1 x.2) + repW x r.1 + (if P.failCb x.1 x.2 then s.done.count x else 0)
       = s.errors.count (.cb x.1 x.2) + repW x pc + (if P.failCb x.1 x.2 then r.2.done.count x else 0))
     ∧ (∀ p, r.2.errors.count (.listing p) = s.errors.count (.listing p))
-    ∧ (r.2.errors = s.errors ∧ r.2.killed = s.killed ∨ r.2.errors ≠ [] ∧ r.2.killed = true) := by
+    ∧ (r.2.errors = s.errors ∧ r.2.ctx = s.ctx ∨ r.2.killed = true) := by
   obtain ⟨x1, x2⟩ := x
   cases pc with
   | inCb d y =>
@@ -271,8 +364,8 @@ theorem consAct_errs (P : Params) (s : St) (pc : PC) (x : Item) :
     simp only [consAct]
     by_cases h : d = x1 ∧ y = x2
     · obtain ⟨rfl, rfl⟩ := h
-      cases d <;> simp [repW, afterCb, List.count_append] <;> omega
-    · cases d <;> simp [repW, afterCb, List.count_append, List.count_cons]
+      cases d <;> simp [repW, afterCb, List.count_append, St.killed] <;> omega
+    · cases d <;> simp [repW, afterCb, List.count_append, List.count_cons, St.killed]
   | selD => simp only [consAct]; split <;> simp [repW]
   | selF => simp only [consAct]; split <;> simp [repW]
   | top => simp only [consAct]; (repeat' split) <;> simp [repW]
@@ -304,22 +397,14 @@ theorem consAct_pool (P : Params) (s : St) (pc : PC) (hpc : pc ≠ .exited) :
 
 /-! ### the step lemma -/
 
-theorem CloserOK_congr {s t : St} (h1 : t.pending = s.pending) (h2 : t.closer = s.closer)
+theorem CloserOK_congr {s t : St} (h1 : t.ppool = s.ppool) (h2 : t.closer = s.closer)
     (h3 : t.closed = s.closed) (h4 : t.dClosed = s.dClosed) (h5 : t.fClosed = s.fClosed)
     (h : CloserOK s) : CloserOK t := by
   unfold CloserOK at h ⊢
   rw [h1, h2, h3, h4, h5]; exact h
 
-theorem msum_ge (f : PC → Nat) (l : List PC) (i : Nat) (pc : PC) (h : l[i]? = some pc) : f pc ≤ msum f l := by
-  induction l generalizing i with
-  | nil => simp at h
-  | cons a r ih =>
-    cases i with
-    | zero => simp at h; subst h; simp [msum]
-    | succ j => simp at h; have := ih j h; simp [msum]; omega
-
-theorem inv_cons {P : Params} (hP : P.fixedOrder = true) {acts : List PAct} {n : Nat} {s t : St}
-    (hI : Inv P acts n s) (i : Nat) (h : consStep P s i = some t) : Inv P acts n t := by
+theorem inv_cons {P : Params} (hP : P.fixedOrder = true) {prog : List PAct} {n : Nat} {s t : St}
+    (hI : Inv P prog n s) (i : Nat) (h : consStep P s i = some t) : Inv P prog n t := by
   unfold consStep at h
   cases hpc : s.cons[i]? with
   | none => simp [hpc] at h
@@ -331,9 +416,9 @@ theorem inv_cons {P : Params} (hP : P.fixedOrder = true) {acts : List PAct} {n :
       cases h
       have hmem : pc ∈ s.cons := List.mem_of_getElem? hpc
       have hg := hI.good pc hmem
-      obtain ⟨f1, f2, f3, f4, f5, f6, _, f8, f9, f10⟩ := consAct_frame P s pc
-      refine ⟨?_, ?_, ?_, ?_, ?_, ?_, ?_, ?_, ?_, ?_, ?_⟩
-      · exact CloserOK_congr f1 f2 f3 f4 f5 hI.closer
+      obtain ⟨f1, f1', f2, f3, f4, f5, f6, f6', _, f8, f9, f10⟩ := consAct_frame P s pc
+      refine ⟨?_, ?_, ?_, ?_, ?_, ?_, ?_, ?_, ?_, ?_, ?_, ?_, ?_, ?_, ?_⟩
+      · exact CloserOK_congr f1' f2 f3 f4 f5 hI.closer
       · intro q hq
         have hq' : Good (consAct P s pc).2 q := by
           rcases List.mem_or_eq_of_mem_set hq with hq | rfl
@@ -341,33 +426,39 @@ theorem inv_cons {P : Params} (hP : P.fixedOrder = true) {acts : List PAct} {n :
           · exact consAct_self P hP s pc hg
         cases q <;> exact hq'
       · simp [hI.len]
-      · have h1 := msum_set liveW s.cons i pc (consAct P s pc).1 hpc
-        have h2 := msum_ge liveW s.cons i pc hpc
+      · have h1 := lsum_set liveW s.cons i pc (consAct P s pc).1 hpc
+        have h2 := lsum_ge liveW s.cons i pc hpc
         have h3 := hI.pool
         rcases consAct_pool P s pc hne with h4 | ⟨h4, rfl⟩
-        · show (consAct P s pc).2.poolCtr = msum liveW (s.cons.set i (consAct P s pc).1)
+        · show (consAct P s pc).2.poolCtr = lsum liveW (s.cons.set i (consAct P s pc).1)
           omega
         · simp [liveW] at h2; omega
+      · show (consAct P s pc).2.ppool = lsum liveP (consAct P s pc).2.prods
+        rw [f1, f1']; exact hI.ppool
       · intro x
-        have h1 := msum_set (cbW x) s.cons i pc (consAct P s pc).1 hpc
+        have h1 := lsum_set (cbW x) s.cons i pc (consAct P s pc).1 hpc
         have h2 := consAct_items P s pc x
         have h3 := hI.items x
-        show (sends (consAct P s pc).2.pending).count x + (qItems (consAct P s pc).2).count x
-          + msum (cbW x) (s.cons.set i (consAct P s pc).1) + (consAct P s pc).2.done.count x
-          + (sends (consAct P s pc).2.dropped).count x = _
+        show lsum (unsentC x) (consAct P s pc).2.prods + (qItems (consAct P s pc).2).count x
+          + lsum (cbW x) (s.cons.set i (consAct P s pc).1) + (consAct P s pc).2.done.count x
+          + (sendsL (consAct P s pc).2.dropped).count x = _
         rw [f1, f6]
         omega
       · intro p
-        have h3 := hI.lfail p
-        show (consAct P s pc).2.errors.count (.listing p) + (lists (consAct P s pc).2.pending).count (p, false)
-          + (lists (consAct P s pc).2.dropped).count (p, false) = _
-        rw [f1, f6, (consAct_errs P s pc (true, p)).2.1 p]
-        exact h3
+        show (consAct P s pc).2.errors.count (.listing p) + lsum (lrepW p) (consAct P s pc).2.prods
+          = (consAct P s pc).2.lfailed.count p
+        rw [f1, f6', (consAct_errs P s pc (true, p)).2.1 p]
+        exact hI.lrep p
+      · intro p
+        show (consAct P s pc).2.lfailed.count p + lsum (lpendC p) (consAct P s pc).2.prods
+          + (listsL (consAct P s pc).2.dropped).count (p, false) = _
+        rw [f1, f6, f6']
+        exact hI.lfail p
       · intro x
-        have h1 := msum_set (repW x) s.cons i pc (consAct P s pc).1 hpc
+        have h1 := lsum_set (repW x) s.cons i pc (consAct P s pc).1 hpc
         have h2 := (consAct_errs P s pc x).1
         have h3 := hI.cbfail x
-        show (consAct P s pc).2.errors.count (.cb x.1 x.2) + msum (repW x) (s.cons.set i (consAct P s pc).1)
+        show (consAct P s pc).2.errors.count (.cb x.1 x.2) + lsum (repW x) (s.cons.set i (consAct P s pc).1)
           = if P.failCb x.1 x.2 then (consAct P s pc).2.done.count x else 0
         omega
       · intro hk
@@ -379,192 +470,318 @@ theorem inv_cons {P : Params} (hP : P.fixedOrder = true) {acts : List PAct} {n :
         · have := f8 hs
           have hk' : (consAct P s pc).2.killed = false := hk
           rw [this] at hk'; cases hk'
-      · show (consAct P s pc).2.killed = true ↔ (consAct P s pc).2.errors ≠ []
-        rcases (consAct_errs P s pc (true, "")).2.2 with ⟨h1, h2⟩ | ⟨h1, h2⟩
-        · rw [h1, h2]; exact hI.killed
-        · simp [h1, h2]
+      · show (consAct P s pc).2.errors ≠ [] → (consAct P s pc).2.killed = true
+        rcases (consAct_errs P s pc (true, "")).2.2 with ⟨h1, h2⟩ | h1
+        · intro he
+          rw [h1] at he
+          have := hI.strict he
+          simp only [St.killed] at this ⊢
+          rw [h2]; exact this
+        · exact fun _ => h1
       · have := hI.capD
         show (consAct P s pc).2.qd.length ≤ _
         omega
       · have := hI.capF
         show (consAct P s pc).2.qf.length ≤ _
         omega
+      · have := hI.lenD
+        show (consAct P s pc).2.qd.length + lsum unsentD (consAct P s pc).2.prods ≤ _
+        rw [f1]; omega
+      · have := hI.lenF
+        show (consAct P s pc).2.qf.length + lsum unsentF (consAct P s pc).2.prods ≤ _
+        rw [f1]; omega
 
-/-- a producer action (executed or abandoned): common part of the proof -/
-theorem inv_prod_aux {P : Params} {acts : List PAct} {n : Nat} {s t : St} {a : PAct} {rest : List PAct}
-    (hI : Inv P acts n s) (hp : s.pending = a :: rest)
-    (hpend : t.pending = rest) (hcons : t.cons = s.cons) (hcloser : t.closer = s.closer)
+/-- a producer action: common part of the proof.  `pr` is the producer before, `pr'` after, `extra`
+the producers it started -/
+theorem inv_prod_aux {P : Params} {prog : List PAct} {n : Nat} {s t : St} {j : Nat} {pr pr' : Prod}
+    {extra : List Prod}
+    (hI : Inv P prog n s) (hj : s.prods[j]? = some pr) (hlive : liveP pr = 1)
+    (hprods : t.prods = s.prods.set j pr' ++ extra)
+    (hcons : t.cons = s.cons) (hcloser : t.closer = s.closer)
     (hclosed : t.closed = s.closed) (hd : t.dClosed = s.dClosed) (hf : t.fClosed = s.fClosed)
     (hpool : t.poolCtr = s.poolCtr) (hdone : t.done = s.done)
     (hk : s.killed = true → t.killed = true)
-    (hitems : ∀ x, (sends [a]).count x + (qItems s).count x + (sends s.dropped).count x
-      = (qItems t).count x + (sends t.dropped).count x)
-    (hlf : ∀ p, s.errors.count (.listing p) + (lists [a]).count (p, false) + (lists s.dropped).count (p, false)
-      = t.errors.count (.listing p) + (lists t.dropped).count (p, false))
+    (hppool : t.ppool + 1 = s.ppool + liveP pr' + lsum liveP extra)
+    (hitems : ∀ x, unsentC x pr + (qItems s).count x + (sendsL s.dropped).count x
+      = unsentC x pr' + lsum (unsentC x) extra + (qItems t).count x + (sendsL t.dropped).count x)
+    (hlrep : ∀ p, s.errors.count (.listing p) + lrepW p pr + t.lfailed.count p
+      = t.errors.count (.listing p) + lrepW p pr' + lsum (lrepW p) extra + s.lfailed.count p)
+    (hlfail : ∀ p, s.lfailed.count p + lpendC p pr + (listsL s.dropped).count (p, false)
+      = t.lfailed.count p + lpendC p pr' + lsum (lpendC p) extra + (listsL t.dropped).count (p, false))
     (hcb : ∀ x : Item, t.errors.count (.cb x.1 x.2) = s.errors.count (.cb x.1 x.2))
     (hdrop : t.killed = false → t.dropped = [])
-    (hkill : t.killed = true ↔ t.errors ≠ [])
-    (hcapD : t.qd.length ≤ P.capD) (hcapF : t.qf.length ≤ P.capF) : Inv P acts n t := by
-  have hncl : s.closed = false := by
-    cases hc : s.closed
-    · rfl
-    · have := closed_pending hI.closer hc; simp [hp] at this
-  have hw : s.closer = .waiting := by
-    have := hI.closer
-    unfold CloserOK at this
-    cases hcl : s.closer <;> simp [hcl, hp] at this ⊢
-  refine ⟨?_, ?_, ?_, ?_, ?_, ?_, ?_, hdrop, hkill, hcapD, hcapF⟩
-  · have := hI.closer
-    unfold CloserOK at this ⊢
+    (hstrict : t.errors ≠ [] → t.killed = true)
+    (hcapD : t.qd.length ≤ P.capD) (hcapF : t.qf.length ≤ P.capF)
+    (hlenD : t.qd.length + unsentD pr' + lsum unsentD extra ≤ s.qd.length + unsentD pr)
+    (hlenF : t.qf.length + unsentF pr' + lsum unsentF extra ≤ s.qf.length + unsentF pr) : Inv P prog n t := by
+  have hge := lsum_ge liveP s.prods j pr hj
+  have hpp : s.ppool ≠ 0 := by have := hI.ppool; omega
+  obtain ⟨hw, hncl, hnd, hnf⟩ := waiting_of_ppool hI.closer hpp
+  have hset : ∀ f : Prod → Nat, lsum f t.prods + f pr = lsum f s.prods + f pr' + lsum f extra := by
+    intro f
+    rw [hprods, lsum_append]
+    have := lsum_set f s.prods j pr pr' hj
+    omega
+  refine ⟨?_, ?_, ?_, ?_, ?_, ?_, ?_, ?_, ?_, hdrop, hstrict, hcapD, hcapF, ?_, ?_⟩
+  · unfold CloserOK
     rw [hcloser, hclosed, hd, hf, hw]
-    rw [hw] at this
-    exact this
+    exact ⟨hncl, hnd, hnf⟩
   · intro q hq
     rw [hcons] at hq
     refine Good_mono hk ?_ ?_ ?_ (hI.good q hq) <;> (intro h; rw [hncl] at h; cases h)
   · rw [hcons]; exact hI.len
   · rw [hpool, hcons]; exact hI.pool
+  · have := hset liveP
+    have := hI.ppool
+    omega
   · intro x
     have h1 := hI.items x
     have h2 := hitems x
-    have h3 : sends s.pending = sends [a] ++ sends rest := by rw [hp, ← sends_append]; rfl
-    rw [h3, List.count_append] at h1
-    rw [hpend, hcons, hdone]
+    have h3 := hset (unsentC x)
+    rw [hcons, hdone]
+    omega
+  · intro p
+    have h1 := hI.lrep p
+    have h2 := hlrep p
+    have h3 := hset (lrepW p)
     omega
   · intro p
     have h1 := hI.lfail p
-    have h2 := hlf p
-    have h3 : lists s.pending = lists [a] ++ lists rest := by rw [hp, ← lists_append]; rfl
-    rw [h3, List.count_append] at h1
-    rw [hpend]
+    have h2 := hlfail p
+    have h3 := hset (lpendC p)
     omega
   · intro x
     rw [hcb x, hcons, hdone]
     exact hI.cbfail x
+  · have := hI.lenD
+    have := hset unsentD
+    omega
+  · have := hI.lenF
+    have := hset unsentF
+    omega
 
-theorem inv_prod {P : Params} {acts : List PAct} {n : Nat} {s t : St}
-    (hI : Inv P acts n s) (h : prodStep P s = some t) : Inv P acts n t := by
+macro "len_tac" : tactic =>
+  `(tactic| (simp [unsentD, unsentF, lsum, List.countP_cons, List.countP_append, sendsL_append] <;> omega))
+
+theorem inv_prod {P : Params} {prog : List PAct} {n : Nat} {s t : St}
+    (hI : Inv P prog n s) (j : Nat) (h : prodStep P s j = some t) : Inv P prog n t := by
   unfold prodStep at h
-  cases hp : s.pending with
-  | nil => simp [hp] at h
-  | cons a rest =>
-    simp only [hp] at h
-    have hcapD := hI.capD
-    have hcapF := hI.capF
-    have hdr := hI.dropped
-    have hkl := hI.killed
-    cases a with
-    | send d p =>
-      cases d <;> simp only [prodAct] at h <;> split at h <;> cases h <;> rename_i hcap <;>
-        refine inv_prod_aux hI hp rfl rfl rfl rfl rfl rfl rfl rfl id ?_ ?_ ?_ hdr hkl ?_ ?_ <;>
-        first
-        | (intro x; simp [sends, qItems, List.count_append, List.count_cons]; omega)
-        | (intro x; simp [lists])
-        | (intro x; rfl)
-        | (simp; omega)
-        | exact hcapD
-        | exact hcapF
-    | list p sl ok =>
-      cases ok <;> simp only [prodAct] at h <;> cases h
-      · refine inv_prod_aux hI hp rfl rfl rfl rfl rfl rfl rfl rfl (fun _ => rfl) ?_ ?_ ?_ ?_ ?_ hcapD hcapF
-        · intro x; simp [sends, qItems]
-        · intro q; simp [lists, List.count_append, List.count_cons]
-        · intro x; simp [List.count_append]
-        · intro hk; cases hk
-        · simp
-      · refine inv_prod_aux hI hp rfl rfl rfl rfl rfl rfl rfl rfl id ?_ ?_ ?_ hdr hkl hcapD hcapF
-        · intro x; simp [sends, qItems]
-        · intro q; simp [lists]
-        · intro x; rfl
-    | filtD p acc =>
-      simp only [prodAct] at h; cases h
-      refine inv_prod_aux hI hp rfl rfl rfl rfl rfl rfl rfl rfl id ?_ ?_ ?_ hdr hkl hcapD hcapF
-      · intro x; simp [sends, qItems]
-      · intro q; simp [lists]
-      · intro x; rfl
-    | filtF p acc =>
-      simp only [prodAct] at h; cases h
-      refine inv_prod_aux hI hp rfl rfl rfl rfl rfl rfl rfl rfl id ?_ ?_ ?_ hdr hkl hcapD hcapF
-      · intro x; simp [sends, qItems]
-      · intro q; simp [lists]
-      · intro x; rfl
-    | add p got =>
-      simp only [prodAct] at h; cases h
-      refine inv_prod_aux hI hp rfl rfl rfl rfl rfl rfl rfl rfl id ?_ ?_ ?_ hdr hkl hcapD hcapF
-      · intro x; simp [sends, qItems]
-      · intro q; simp [lists]
-      · intro x; rfl
-
-theorem inv_abandon {P : Params} {acts : List PAct} {n : Nat} {s t : St}
-    (hI : Inv P acts n s) (h : abandonStep s = some t) : Inv P acts n t := by
-  unfold abandonStep at h
-  split at h
-  · rename_i hk
-    cases hp : s.pending with
-    | nil => simp [hp] at h
-    | cons a rest =>
-      simp only [hp] at h
+  have hcapD := hI.capD
+  have hcapF := hI.capF
+  have hdr := hI.dropped
+  have hst := hI.strict
+  cases hj : s.prods[j]? with
+  | none => simp [hj] at h
+  | some pr =>
+    simp only [hj] at h
+    cases pr with
+    | gone => cases h
+    | rep p k rest =>
       cases h
-      refine inv_prod_aux hI hp rfl rfl rfl rfl rfl rfl rfl rfl id ?_ ?_ (fun _ => rfl) ?_ hI.killed hI.capD hI.capF
+      refine inv_prod_aux (pr' := .run (rest.drop k)) (extra := []) hI hj rfl (by simp) rfl rfl rfl rfl rfl rfl rfl
+        (fun _ => by simp [St.killed]) ?_ ?_ ?_ ?_ ?_ ?_ ?_ hcapD hcapF
+        (by have := countP_sendsL_drop_le (fun x => x.1) k rest; simp [unsentD, lsum]; omega)
+        (by have := countP_sendsL_drop_le (fun x => !x.1) k rest; simp [unsentF, lsum]; omega)
+      · simp [liveP, lsum]
       · intro x
-        have : sends (a :: s.dropped) = sends [a] ++ sends s.dropped := by rw [← sends_append]; rfl
-        show _ = (qItems s).count x + (sends (a :: s.dropped)).count x
-        rw [this, List.count_append]; omega
-      · intro p
-        have : lists (a :: s.dropped) = lists [a] ++ lists s.dropped := by rw [← lists_append]; rfl
-        show _ = s.errors.count (.listing p) + (lists (a :: s.dropped)).count (p, false)
-        rw [this, List.count_append]; omega
-      · intro hk'
-        have hk'' : s.killed = false := hk'
-        rw [hk] at hk''; cases hk''
-  · cases h
+        have := congrArg (fun l => l.count x) (sendsL_take_drop k rest)
+        simp [List.count_append] at this
+        simp [unsentC, lsum, qItems, sendsL_append, List.count_append]
+        omega
+      · intro q
+        simp [lrepW, lsum, List.count_append, List.count_cons]
+      · intro q
+        have := congrArg (fun l => l.count (q, false)) (listsL_take_drop k rest)
+        simp [List.count_append] at this
+        simp [lpendC, lsum, listsL_append, List.count_append]
+        omega
+      · intro x; simp [List.count_append]
+      · intro hk; simp [St.killed] at hk
+      · intro _; simp [St.killed]
+    | run acts =>
+      cases acts with
+      | nil =>
+        cases h
+        have hge := lsum_ge liveP s.prods j _ hj
+        have hpp := hI.ppool
+        simp only [liveP] at hge
+        refine inv_prod_aux (pr' := .gone) (extra := []) hI hj rfl (by simp) rfl rfl rfl rfl rfl rfl rfl id
+          ?_ ?_ ?_ ?_ (fun _ => rfl) hdr hst hcapD hcapF (by len_tac) (by len_tac)
+        · simp [liveP, lsum]; omega
+        · intro x; simp [unsentC, lsum, qItems]
+        · intro q; simp [lrepW, lsum]
+        · intro q; simp [lpendC, lsum]
+      | cons a rest =>
+        simp only [] at h
+        cases a with
+        | send d p =>
+          cases d <;> simp only [prodAct] at h <;> split at h <;> cases h <;> rename_i hcap <;>
+            refine inv_prod_aux (pr' := .run rest) (extra := []) hI hj rfl (by simp) rfl rfl rfl rfl rfl rfl rfl id
+              ?_ ?_ ?_ ?_ (fun _ => rfl) hdr hst ?_ ?_ ?_ ?_ <;>
+            first
+            | (simp [liveP, lsum]; done)
+            | (intro x; simp [unsentC, lsum, qItems, List.count_append, List.count_cons]; omega)
+            | (intro x; simp [lrepW, lsum]; done)
+            | (intro x; simp [lpendC, lsum]; done)
+            | (simp; omega)
+            | exact hcapD
+            | exact hcapF
+            | len_tac
+        | list p sl ok k =>
+          cases ok <;> simp only [prodAct] at h <;> cases h
+          · refine inv_prod_aux (pr' := .rep p k rest) (extra := []) hI hj rfl (by simp) rfl rfl rfl rfl rfl rfl rfl id
+              ?_ ?_ ?_ ?_ (fun _ => rfl) hdr hst hcapD hcapF (by len_tac) (by len_tac)
+            · simp [liveP, lsum]
+            · intro x; simp [unsentC, lsum, qItems]
+            · intro q
+              simp [lrepW, lsum, List.count_cons]
+              by_cases hq : p = q <;> simp [hq]; omega
+            · intro q
+              simp [lpendC, lsum, List.count_cons]
+              by_cases hq : p = q <;> simp [hq]; omega
+          · refine inv_prod_aux (pr' := .run rest) (extra := []) hI hj rfl (by simp) rfl rfl rfl rfl rfl rfl rfl id
+              ?_ ?_ ?_ ?_ (fun _ => rfl) hdr hst hcapD hcapF (by len_tac) (by len_tac)
+            · simp [liveP, lsum]
+            · intro x; simp [unsentC, lsum, qItems]
+            · intro q; simp [lrepW, lsum]
+            · intro q; simp [lpendC, lsum]
+        | filtD p acc =>
+          simp only [prodAct] at h; cases h
+          refine inv_prod_aux (pr' := .run rest) (extra := []) hI hj rfl (by simp) rfl rfl rfl rfl rfl rfl rfl id
+            ?_ ?_ ?_ ?_ (fun _ => rfl) hdr hst hcapD hcapF (by len_tac) (by len_tac)
+          · simp [liveP, lsum]
+          · intro x; simp [unsentC, lsum, qItems]
+          · intro q; simp [lrepW, lsum]
+          · intro q; simp [lpendC, lsum]
+        | filtF p acc =>
+          simp only [prodAct] at h; cases h
+          refine inv_prod_aux (pr' := .run rest) (extra := []) hI hj rfl (by simp) rfl rfl rfl rfl rfl rfl rfl id
+            ?_ ?_ ?_ ?_ (fun _ => rfl) hdr hst hcapD hcapF (by len_tac) (by len_tac)
+          · simp [liveP, lsum]
+          · intro x; simp [unsentC, lsum, qItems]
+          · intro q; simp [lrepW, lsum]
+          · intro q; simp [lpendC, lsum]
+        | add p =>
+          simp only [prodAct] at h; cases h
+          refine inv_prod_aux (pr' := .run rest) (extra := []) hI hj rfl (by simp) rfl rfl rfl rfl rfl rfl rfl id
+            ?_ ?_ ?_ ?_ (fun _ => rfl) hdr hst hcapD hcapF (by len_tac) (by len_tac)
+          · simp [liveP, lsum]
+          · intro x; simp [unsentC, lsum, qItems]
+          · intro q; simp [lrepW, lsum]
+          · intro q; simp [lpendC, lsum]
+        | spawn p body =>
+          simp only [prodAct] at h; cases h
+          refine inv_prod_aux (pr' := .run rest) (extra := [.run body]) hI hj rfl rfl rfl rfl rfl rfl rfl rfl rfl id
+            ?_ ?_ ?_ ?_ (fun _ => rfl) hdr hst hcapD hcapF (by len_tac) (by len_tac)
+          · simp [liveP, lsum]
+          · intro x; simp [unsentC, lsum, qItems, List.count_append]; omega
+          · intro q; simp [lrepW, lsum]
+          · intro q; simp [lpendC, lsum, List.count_append]; omega
+        | chk k =>
+          simp only [prodAct] at h
+          split at h
+          · rename_i hkl
+            cases h
+            refine inv_prod_aux (pr' := .run (rest.drop k)) (extra := []) hI hj rfl (by simp) rfl rfl rfl rfl rfl rfl rfl id
+              ?_ ?_ ?_ ?_ (fun _ => rfl) ?_ hst hcapD hcapF
+              (by have := countP_sendsL_drop_le (fun x => x.1) k rest; simp [unsentD, lsum]; omega)
+              (by have := countP_sendsL_drop_le (fun x => !x.1) k rest; simp [unsentF, lsum]; omega)
+            · simp [liveP, lsum]
+            · intro x
+              have := congrArg (fun l => l.count x) (sendsL_take_drop k rest)
+              simp [List.count_append] at this
+              simp [unsentC, lsum, qItems, sendsL_append, List.count_append]
+              omega
+            · intro q; simp [lrepW, lsum]
+            · intro q
+              have := congrArg (fun l => l.count (q, false)) (listsL_take_drop k rest)
+              simp [List.count_append] at this
+              simp [lpendC, lsum, listsL_append, List.count_append]
+              omega
+            · intro hk'
+              have hk'' : s.killed = false := hk'
+              rw [hkl] at hk''; cases hk''
+          · cases h
+            refine inv_prod_aux (pr' := .run rest) (extra := []) hI hj rfl (by simp) rfl rfl rfl rfl rfl rfl rfl id
+              ?_ ?_ ?_ ?_ (fun _ => rfl) hdr hst hcapD hcapF (by len_tac) (by len_tac)
+            · simp [liveP, lsum]
+            · intro x; simp [unsentC, lsum, qItems]
+            · intro q; simp [lrepW, lsum]
+            · intro q; simp [lpendC, lsum]
 
-theorem inv_closer {P : Params} {acts : List PAct} {n : Nat} {s t : St}
-    (hI : Inv P acts n s) (h : closerStep s = some t) : Inv P acts n t := by
+theorem inv_closer {P : Params} {prog : List PAct} {n : Nat} {s t : St}
+    (hI : Inv P prog n s) (h : closerStep s = some t) : Inv P prog n t := by
   have hcl := hI.closer
   unfold closerStep at h
   unfold CloserOK at hcl
-  have key : ∀ t : St, t.cons = s.cons → t.killed = s.killed → t.qd = s.qd → t.qf = s.qf →
+  have key : ∀ t : St, t.cons = s.cons → t.ctx = s.ctx → t.qd = s.qd → t.qf = s.qf →
       (s.closed = true → t.closed = true) → ∀ q ∈ t.cons, Good t q := by
     intro t h1 h2 h3 h4 h5 q hq
     rw [h1] at hq
-    exact Good_mono (by rw [h2]; exact id) h5 (by rw [h3]; exact fun _ h => h) (by rw [h4]; exact fun _ h => h)
-      (hI.good q hq)
+    exact Good_mono (by simp only [St.killed]; rw [h2]; exact id) h5 (by rw [h3]; exact fun _ h => h)
+      (by rw [h4]; exact fun _ h => h) (hI.good q hq)
   cases hc : s.closer <;> simp only [hc] at h hcl
   · split at h
     · cases h
       rename_i hpe
-      refine ⟨?_, key _ rfl rfl rfl rfl id, hI.len, hI.pool, hI.items, hI.lfail, hI.cbfail, hI.dropped,
-        hI.killed, hI.capD, hI.capF⟩
+      refine ⟨?_, key _ rfl rfl rfl rfl id, hI.len, hI.pool, hI.ppool, hI.items, hI.lrep, hI.lfail, hI.cbfail,
+        hI.dropped, hI.strict, hI.capD, hI.capF, hI.lenD, hI.lenF⟩
       simp [CloserOK, hcl]
-      simpa using hpe
+      exact hpe
     · cases h
   · cases h
-    refine ⟨?_, key _ rfl rfl rfl rfl (fun _ => rfl), hI.len, hI.pool, hI.items, hI.lfail, hI.cbfail,
-      hI.dropped, hI.killed, hI.capD, hI.capF⟩
+    refine ⟨?_, key _ rfl rfl rfl rfl (fun _ => rfl), hI.len, hI.pool, hI.ppool, hI.items, hI.lrep, hI.lfail,
+      hI.cbfail, hI.dropped, hI.strict, hI.capD, hI.capF, hI.lenD, hI.lenF⟩
     simp [CloserOK, hcl]
   · cases h
-    refine ⟨?_, key _ rfl rfl rfl rfl id, hI.len, hI.pool, hI.items, hI.lfail, hI.cbfail, hI.dropped,
-      hI.killed, hI.capD, hI.capF⟩
+    refine ⟨?_, key _ rfl rfl rfl rfl id, hI.len, hI.pool, hI.ppool, hI.items, hI.lrep, hI.lfail, hI.cbfail,
+      hI.dropped, hI.strict, hI.capD, hI.capF, hI.lenD, hI.lenF⟩
     simp [CloserOK, hcl]
   · cases h
-    refine ⟨?_, key _ rfl rfl rfl rfl id, hI.len, hI.pool, hI.items, hI.lfail, hI.cbfail, hI.dropped,
-      hI.killed, hI.capD, hI.capF⟩
+    refine ⟨?_, key _ rfl rfl rfl rfl id, hI.len, hI.pool, hI.ppool, hI.items, hI.lrep, hI.lfail, hI.cbfail,
+      hI.dropped, hI.strict, hI.capD, hI.capF, hI.lenD, hI.lenF⟩
     simp [CloserOK, hcl]
   · cases h
+
+/-- an environment act (kill / error event / deadline): only the context changes, and a dead context
+stays dead -/
+theorem inv_env {P : Params} {prog : List PAct} {n : Nat} {s : St} (hI : Inv P prog n s) (c : Ctx)
+    (hk : s.ctx.dead = true → c.dead = true) (hd : c.dead = false → c = s.ctx) :
+    Inv P prog n { s with ctx := c } := by
+  refine ⟨CloserOK_congr rfl rfl rfl rfl rfl hI.closer, ?_, hI.len, hI.pool, hI.ppool, hI.items, hI.lrep,
+    hI.lfail, hI.cbfail, ?_, ?_, hI.capD, hI.capF, hI.lenD, hI.lenF⟩
+  · intro q hq
+    exact Good_mono (s := s) (by simpa [St.killed] using hk) id (fun _ h => h) (fun _ h => h) (hI.good q hq)
+  · intro hk'
+    have : c = s.ctx := hd (by simpa [St.killed] using hk')
+    apply hI.dropped
+    simp only [St.killed] at hk' ⊢
+    rw [← this]; exact hk'
+  · intro he
+    have := hI.strict he
+    simp only [St.killed] at this ⊢
+    exact hk this
 
 /-- the step lemma of the repaired protocol -/
-theorem inv_step {P : Params} (hP : P.fixedOrder = true) {acts : List PAct} {n : Nat} {s t : St}
-    (hI : Inv P acts n s) (l : Label) (h : step P s l = some t) : Inv P acts n t := by
+theorem inv_step {P : Params} (hP : P.fixedOrder = true) {prog : List PAct} {n : Nat} {s t : St}
+    (hI : Inv P prog n s) (l : Label) (h : step P s l = some t) : Inv P prog n t := by
   cases l with
-  | prod => exact inv_prod hI h
-  | abandon => exact inv_abandon hI h
+  | prod j => exact inv_prod hI j h
   | closer => exact inv_closer hI h
   | cons i => exact inv_cons hP hI i h
+  | kill =>
+    simp only [step] at h; cases h
+    exact inv_env hI _ (fun _ => by simp) (fun h => by simp at h)
+  | errEvent =>
+    simp only [step] at h; cases h
+    exact inv_env hI _ (fun _ => by simp) (fun h => by simp at h)
+  | timeout =>
+    simp only [step] at h; cases h
+    exact inv_env hI _ (fun _ => by simp) (fun h => by simp at h)
 
-theorem inv_reachable {P : Params} (hP : P.fixedOrder = true) (acts : List PAct) (n : Nat) (s : St)
-    (h : Reachable (sys P acts n) s) : Inv P acts n s :=
-  inv_of_init_step (sys P acts n) (Inv P acts n) (inv_init P acts n)
+theorem inv_reachable {P : Params} (hP : P.fixedOrder = true) (prog : List PAct) (n : Nat) (s : St)
+    (h : Reachable (sys P prog n) s) : Inv P prog n s :=
+  inv_of_init_step (sys P prog n) (Inv P prog n) (inv_init P prog n)
     (fun _ l _ hI hs => inv_step hP hI l hs) s h
 
 end Goat.Loop
